@@ -26,7 +26,7 @@ extern "C" {
 #include "device/kit/camera.h"
 #include "device/kit/storage.h"
 #include "device/props/components.h"
-void aq_logger(int, const char*, int, const char*, const char*, ...) {}
+// (the real logger is linked; no reporter is installed, so it stays silent)
 }
 
 // ---------------------------------------------------------------- answers chosen by the explorer
